@@ -80,8 +80,10 @@ def make_spec(run_seed, tier, prop, choice_weights=None, forced_prob=0.0, branch
         spec["abort_first"] = {"at": rs.choice([0, 1, 2, 3, 5, 8, 13, 21, 34]), "how": rs.choice(["raise", "interrupt"]), "seed": rs.randrange(1 << 40)}
     if rs.random() < 0.12:
         spec["again"] = rs.randrange(1 << 40)  # a second, fully audited generation from the same parsed object
-    if "entry" not in spec and rs.random() < 0.06:
+    # (a left terminal with a weight or list of its own becomes the right terminal of the mirror: mirrored more often)
+    if "entry" not in spec and rs.random() < (0.4 if any(t.startswith("left_terminal") for t in tags) else 0.05):
         spec["entry"] = "mirror"  # generate from Molecule.gen_mirror(), audit against the mirrored description
+        spec["mirror_pre"] = rs.choice([None, 1, 2, 3, 4])  # the original generated once before the mirror is taken
     if "entry" not in spec and rs.random() < 0.07:
         spec["entry"] = "staged"  # element by element through the copies handed out by Molecule.elements (genrun.py)
     if "hub" in tags:
@@ -175,7 +177,7 @@ def execute(spec, props=None):
         else:
             # two passes: the first records the masses a_k - a_0 of the natural run, the second forces the tie
             out1 = genrun.run_molecule(text, sched, props=(), embed="stub", cap_mass=spec.get("cap_mass"), wall=60, ast=ast,
-                                       entry=spec.get("entry", "molecule"))
+                                       entry=spec.get("entry", "molecule"), pre_generate_seed=spec.get("mirror_pre"))
             if out1.harness_error:
                 return {"harness_error": out1.harness_error, "violations": []}
             recs = getattr(out1.audit, "stop_records", None)
@@ -216,7 +218,8 @@ def execute(spec, props=None):
             reuse = out0.mol_obj
         stats["aborted_first_generations"] = 1
     out = genrun.run_molecule(text, sched, props=props, embed=spec.get("embed", "stub"), forced_draws=forced_values,
-                              cap_mass=spec.get("cap_mass"), wall=90, ast=ast, entry=spec.get("entry", "molecule"), reuse_obj=reuse)
+                              cap_mass=spec.get("cap_mass"), wall=90, ast=ast, entry=spec.get("entry", "molecule"), reuse_obj=reuse,
+                              pre_generate_seed=spec.get("mirror_pre"))
     if out.harness_error:
         return {"harness_error": out.harness_error, "violations": []}
     if isinstance(out.exc, WallTimeout):
